@@ -6,7 +6,7 @@ from engine.symrun.core import Explorer
 from .extract import (Ctx, Automaton, Schema, Intern, SymEnvDict, SymRLock, SymCondition, SymQueue, SymTime,
                       Cut, NewField, ModelError)
 
-KINDS = ['done', 'failed', 'raises', 'none', 'triple', 'bogus-status', 'update-not-a-mapping']
+KINDS = ['done', 'failed', 'raises', 'none', 'triple', 'bogus-status', 'update-not-a-mapping', 'update-empty-non-mapping']
 
 
 class Payload:
@@ -59,6 +59,8 @@ def make_probe_tasks(names, ctx_ref, payloads, shared=False):
                 return upd_ok, TaskStatus.DONE, 'extra'
             if kind == 'bogus-status':
                 return upd_ok, 'bogus'
+            if kind == 'update-empty-non-mapping':
+                return [], TaskStatus.DONE          # falsy, but not a mapping either
             return 42, TaskStatus.DONE
     return [ProbeTask(n, i) for i, n in enumerate(names)]
 
